@@ -332,3 +332,126 @@ example : Spec.expected "data".toList ["t".toList] "/data/b".toList [("type".toL
     = some [("type".toList, "int".toList), ("relevant".toList, " /data/t  > 1".toList)] := by decide +kernel
 
 end Pyxv.C05
+
+/-! ## where the binds of the composed model sit -/
+
+namespace Pyxv.C05
+open Pyxv Pyxv.Binds
+
+/-- **binds_exactly_where_prescribed_refs.**  In the composed model, too, the binds are exactly at the elements that carry
+a (non-empty) bind dict, in document order, each on its own element's path. -/
+theorem binds_exactly_where_prescribed_refs (els : List Refs.Chain) :
+    ∀ (es : List ElemC) (bs : List Bind), renderAllR els es = some bs →
+      bs.map (·.path) = ((es.map ElemC.erase).filter fun e => (elemBind e.q).isSome).map (·.path) := by
+  intro es
+  induction es with
+  | nil => intro bs h; simp only [renderAllR, Option.some.injEq] at h; subst h; rfl
+  | cons e rest ih =>
+    intro bs h
+    unfold renderAllR at h
+    split at h
+    · cases h
+    · next ob hx =>
+      split at h
+      · cases h
+      · next bs' hr =>
+        simp only [Option.some.injEq] at h
+        subst h
+        have := ih bs' hr
+        unfold xmlBindR at hx
+        split at hx
+        · next hn =>
+          simp only [Option.some.injEq] at hx
+          subst hx
+          simp [hn, this, ElemC.erase]
+        · next bd hb =>
+          split at hx
+          · cases hx
+          · cases ha : attrsOfR els e.chain e.q.trigger bd with
+            | none => simp [ha] at hx
+            | some a =>
+              simp only [ha, Option.map_some, Option.some.injEq] at hx
+              subst hx
+              simp [hb, this, ElemC.erase]
+
+theorem metaElemC_erase (root : Str) (q : Q) : (metaElemC root q).erase = metaElem root q := by
+  simp [metaElemC, metaElem, ElemC.erase, metaChain, Refs.Chain.path]
+
+theorem instanceIDC_erase (root : Str) : (instanceIDC root).erase = instanceID root := by
+  simp [instanceIDC, instanceID, ElemC.erase, metaChain, Refs.Chain.path]
+
+/-- **one_bind_per_node_refs.**  The nodesets of the binds of the composed model are pairwise distinct, for all row
+lists and nestings. -/
+theorem one_bind_per_node_refs (root : Str) (ks : List RK) (metas : List Q) (bs : List Bind) {extra : List Str}
+    (h : bindsOfRowsR root ks metas extra = .ok bs) : (bs.map (·.path)).Nodup := by
+  unfold bindsOfRowsR at h
+  simp only at h
+  split at h
+  · cases h
+  next hnames =>
+  split at h
+  · cases h
+  split at h
+  · cases h
+  split at h
+  · cases h
+  next es hw =>
+  split at h
+  · cases h
+  next bs' hr =>
+  split at h
+  case isFalse => cases h
+  simp only [Out.ok.injEq] at h
+  subst h
+  have hw' : walk root [] ks = some (es.map ElemC.erase) := by
+    rw [← walkC_erase root ks [], hw]; rfl
+  rw [binds_exactly_where_prescribed_refs _ _ _ hr]
+  refine ((List.filter_sublist).map _).nodup ?_
+  apply nodup_of_map (fun p => p.getLast?)
+  rw [List.map_map]
+  have he : (es ++ (metas.map (metaElemC root) ++ [instanceIDC root])).map ElemC.erase
+      = es.map ElemC.erase ++ (metas.map (metaElem root) ++ [instanceID root]) := by
+    simp [List.map_append, List.map_map, Function.comp_def, metaElemC_erase, instanceIDC_erase]
+  rw [he]
+  show ((es.map ElemC.erase ++ (metas.map (metaElem root) ++ [instanceID root])).map (fun e => e.path.getLast?)).Nodup
+  have hm : (metas.map (metaElem root)).map (fun e => e.path.getLast?) = (metas.map (·.name)).map some := by
+    simp [List.map_map, metaElem, Function.comp_def]
+  rw [List.map_append, List.map_append, hm, walk_lasts root ks [] _ hw', ← List.append_assoc, ← List.map_append]
+  show ((allNames ks metas).map some ++ [instanceID root].map (fun e => e.path.getLast?)).Nodup
+  simp only [Bool.or_eq_true, Bool.not_eq_true', decide_eq_false_iff_not, not_or, Bool.not_eq_true,
+    Decidable.not_not] at hnames
+  obtain ⟨hnd, hres⟩ := hnames
+  have hn : (allNames ks metas).Nodup := nodup_of_map lowerAscii _ hnd
+  rw [List.nodup_append]
+  refine ⟨List.Pairwise.map some (fun a b hab e => hab (Option.some.inj e)) hn, by simp, ?_⟩
+  intro a ha b hb
+  simp only [List.map_cons, List.map_nil, List.mem_singleton] at hb
+  subst hb
+  obtain ⟨n, hn1, rfl⟩ := List.mem_map.mp ha
+  intro e
+  have e' : n = "instanceID".toList := Option.some.inj e
+  subst e'
+  have : ((allNames ks metas).map lowerAscii).any (reservedNames root).contains = true := by
+    rw [List.any_eq_true]
+    refine ⟨lowerAscii "instanceID".toList, List.mem_map.mpr ⟨_, hn1, rfl⟩, ?_⟩
+    rw [lower_instanceID]
+    simp [reservedNames]
+  rw [this] at hres
+  cases hres
+
+-- non-vacuity: the hypothesis holds for the repeat example above (4 binds)
+example : ∃ bs, bindsOfRowsR "data".toList exKs [] = .ok bs ∧ bs.length = 4 := by
+  cases h : bindsOfRowsR "data".toList exKs [] with
+  | ok bs =>
+    refine ⟨bs, rfl, ?_⟩
+    have : (match bindsOfRowsR "data".toList exKs [] with | .ok bs => bs.length | _ => 0) = 4 := by decide +kernel
+    rw [h] at this
+    exact this
+  | dupHeader a b =>
+    have : (match bindsOfRowsR "data".toList exKs [] with | .ok _ => true | _ => false) = true := by decide +kernel
+    rw [h] at this; cases this
+  | unsupported w =>
+    have : (match bindsOfRowsR "data".toList exKs [] with | .ok _ => true | _ => false) = true := by decide +kernel
+    rw [h] at this; cases this
+
+end Pyxv.C05
